@@ -544,6 +544,14 @@ pub fn c15(o: &Opts, t: &mut Tracer) -> Value {
             t.sig(format!("c15/{}/{}", m, st));
         }
     }
+    // the redirect state is a matter of the status alone: a 3xx without any Location enters it too (and cannot be followed)
+    for (k, st) in [300u16, 301, 302, 303, 305, 307, 308, 399, 304].iter().enumerate() {
+        for with_body in [false, true] {
+            run_chain_opt(t, &orig, ["GET", "POST", "HEAD"][k % 3], k % 2 == 0, &[Hop { status: *st, r: bad_ref(), bad: Some("missing"), frag: false, decoys: 0, with_body }], "c15-no-location", ChainOpt::default());
+            n += 1;
+        }
+    }
+    t.class("hop:no-location");
     // the table has no hop count in it: long chains, and Locations of every length
     for (k, m) in ["GET", "HEAD", "OPTIONS", "POST", "TRACE"].iter().enumerate() {
         let hops: Vec<Hop> = (0..14).map(|j| Hop { status: [302u16, 307, 301, 308, 303][(j + k) % 5], r: mk_ref("abspath", "", "", 0, &["hop", ["a", "b", "c"][j % 3]], ["-", "n=1"][j % 2]), bad: None, frag: false, decoys: 0, with_body: j % 4 == 3 }).collect();
